@@ -5,7 +5,7 @@ open Lean Proto JediModel.Caches
 
 /-! Driver for C08.  One request = one whole process history:
 `{"op":"history","cfg":{…overrides…},"steps":[{"t":"script","key":null|"p","text":n,"ptime":null|n},
-  {"t":"lookup","k":"d:name"}, {"t":"sig","k":".."}, {"t":"tick","dt":n}, {"t":"gc"}]}`
+  {"t":"lookup","k":"d:name"}, {"t":"sig","pos":n,"matched":b,"k":".."}, {"t":"tick","dt":n}, {"t":"gc"}]}`
 Texts are numbers (equal number ⇔ equal text); `parse = id`; a lookup returns the number of the
 text it was computed on, so the answer names the version of the buffer it belongs to. -/
 
@@ -27,6 +27,7 @@ def cfgOf (j : Json) : Cfg :=
     | .ok (.bool x) => x
     | _ => d
   { keyOnTree := b "keyOnTree" base.keyOnTree, sigKeyFresh := b "sigKeyFresh" base.sigKeyFresh,
+    sigCachesUnmatched := b "sigCachesUnmatched" base.sigCachesUnmatched,
     memoPerScript := b "memoPerScript" base.memoPerScript, scriptCache := b "scriptCache" base.scriptCache,
     diffCache := b "diffCache" base.diffCache,
     validity := (optNat j "validity").getD base.validity }
@@ -70,8 +71,13 @@ def stepJson (cfg : Cfg) (st : St) (j : Json) : St × Json :=
     let (v, st') := lookup cfg C st0 (str j "k")
     (st', jobj [("node", node), ("hit", jbool hit), ("val", jopt jnat v)])
   | "sig" =>
-    let (v, st') := sigq cfg C st (str j "k")
-    (st', jobj [("val", jopt jnat v), ("entries", jnat st'.sig.length)])
+    let (v, st') := sigq cfg C st (nat j "pos") (bool j "matched") (str j "k")
+    -- a hit leaves the number of entries unchanged although the key is cacheable
+    let cacheable := match st.cur with
+      | some sc => sc.key.isSome && (bool j "matched" || cfg.sigCachesUnmatched)
+      | none => false
+    (st', jobj [("val", jopt jnat v), ("entries", jnat st'.sig.length),
+                ("hit", jbool (cacheable && st'.sig.length == st.sig.length))])
   | "tick" => ({ st with clock := st.clock + nat j "dt" }, jobj [])
   | "gc" =>
     let st' := gc cfg st
@@ -89,7 +95,7 @@ def handle (j : Json) : Json :=
   | "cfg" =>
     let c := JediModel.Gen.C08.cfg
     jobj [("keyOnTree", jbool c.keyOnTree), ("sigKeyFresh", jbool c.sigKeyFresh),
-          ("memoPerScript", jbool c.memoPerScript), ("scriptCache", jbool c.scriptCache),
+          ("sigCachesUnmatched", jbool c.sigCachesUnmatched), ("memoPerScript", jbool c.memoPerScript), ("scriptCache", jbool c.scriptCache),
           ("diffCache", jbool c.diffCache), ("validity", jnat c.validity)]
   | op => jobj [("error", jstr ("unknown op " ++ op))]
 
